@@ -9,6 +9,7 @@ from ..refmodel import mp, M, Phi, V_exact, W_exact, Vt_exact, Wt_exact, band, E
 from ..util import EPS
 
 PROPERTY = "C17"
+PYTEST_PREFIX = "C17"
 LEVEL = "exploration"
 RULE = ("Contract monitors on the real exported v, w, vt, wt, phi_major against 40-digit mpmath values. Sweep: t log-dense "
         "in [1e-8,1e-2] incl. both ends; x uniform in [-40,40], extra density in [-9,9], +-64-ulp neighbourhoods of every "
